@@ -151,6 +151,19 @@ def is_py(k):
     return isinstance(k, tuple)
 
 
+def kenc(k):
+    """kind -> short string used in the IR name of a kind-specialised callee"""
+    if is_py(k):
+        return 'L' + kenc(k[1])
+    return {PB: 'P', SCK: 'S'}.get(k, 'U')
+
+
+def kdec(s):
+    if s.startswith('L'):
+        return PY(kdec(s[1:]))
+    return {'P': PB, 'S': SCK}.get(s, UNK)
+
+
 # ----------------------------------------------------------------------------- schema
 def schema_attrs():
     """(scalar attribute names, protobuf-valued attribute names) from the live descriptors."""
@@ -278,7 +291,14 @@ class FnTranslator:
         self.op.varnames.append(name)
         return len(self.op.varnames) - 1
 
-    def iter_temp(self, lineno, iter_ast, k):
+    def zip_of_names(self, iter_ast, target):
+        """`for a, b in zip(X, Y)` with plain local names X, Y: bound component-wise by bind_target (a from X, b from Y)"""
+        return (isinstance(iter_ast, ast.Call) and isinstance(iter_ast.func, ast.Name) and iter_ast.func.id == 'zip'
+                and isinstance(target, (ast.Tuple, ast.List)) and len(iter_ast.args) == len(target.elts)
+                and not iter_ast.keywords and self.var_of('zip') is None
+                and all(isinstance(a, ast.Name) for a in iter_ast.args))
+
+    def iter_temp(self, lineno, iter_ast, k, target=None):
         """temporary holding the iterable of a loop; it aliases the container it iterates over"""
         name = '%%it%d_%d' % (lineno, getattr(iter_ast, 'col_offset', 0))
         v = self.new_var(name)
@@ -286,6 +306,10 @@ class FnTranslator:
         self.all_names.append(name)
         if self.phase == 'kinds':
             self.kinds[name] = k
+        if target is not None and self.zip_of_names(iter_ast, target):
+            # the temporary is never read (the targets are bound to elements of X and of Y separately), so X and Y
+            # need not be put into one alias class through it
+            return v
         for n in self.alias_sources(iter_ast):
             self.union(name, n)
         return v
@@ -331,11 +355,12 @@ class FnTranslator:
     # ------------------------------------------------------------------ driver
     def translate(self):
         # flow-insensitive kinds and alias classes need a few passes over the body
-        for name in self.pyparams:
+        pk = self.spec.get('%kinds') or ()
+        for i, name in enumerate(self.pyparams):
             if name in self.spec:
                 self.kinds[name] = SCK
             else:
-                self.kinds[name] = UNK
+                self.kinds[name] = kdec(pk[i]) if i < len(pk) else UNK
         for name in self.captured:
             self.kinds[name] = self.outer.kinds.get(name, UNK) if self.outer else UNK
         self.unstable = False
@@ -448,7 +473,7 @@ class FnTranslator:
             return block([loop(block(pre + [self.stmts(s.body)]))] + pre + [self.stmts(s.orelse)])
         if isinstance(s, ast.For):
             pre, it, k = self.expr(s.iter)
-            tmp = self.iter_temp(s.lineno, s.iter, k)
+            tmp = self.iter_temp(s.lineno, s.iter, k, s.target)
             bind = self.bind_target(s.target, s.iter, ('var', tmp), k)
             return block(pre + [('assign', tmp, it), loop(block([bind, self.stmts(s.body)])), self.stmts(s.orelse)])
         if isinstance(s, ast.Assign):
@@ -1183,10 +1208,13 @@ class FnTranslator:
         if len(es) > len(params):
             return None
         out = list(es) + [None] * (len(params) - len(es))
-        for k, (e, _) in kes.items():
+        kout = list(ks) + [UNK] * (len(params) - len(es))
+        for k, (e, kk) in kes.items():
             if k not in params or out[params.index(k)] is not None:
                 return None
             out[params.index(k)] = e
+            kout[params.index(k)] = kk
+        self.last_arg_kinds = kout
         consts = {}
         for i, a in enumerate(n.args):
             if isinstance(a, ast.Constant):
@@ -1210,6 +1238,14 @@ class FnTranslator:
             if 'in_place' in given and 'in_place' not in consts:
                 return pre + [self.conservative(n, 'non-constant in_place')], SC, UNK
             spec = {'in_place': bool(consts.get('in_place', False))}
+        # kind-specialised translation of the callee (what is known at THIS call site about each argument: protobuf
+        # object / scalar / Python container of …), once the caller's own kinds are stable; a helper extracted from
+        # an operation is then translated with the same knowledge the inlined statements had
+        if self.phase != 'kinds':
+            ks = tuple(kenc(k) for k in self.last_arg_kinds)
+            if any(k != 'U' for k in ks):
+                spec = dict(spec)
+                spec['%kinds'] = ks
         try:
             irname = self.w.ensure_op(name, spec)
         except Unsupported as ex:
@@ -1345,6 +1381,77 @@ class FnTranslator:
             self.note_kind(root, k)
 
 
+def split_tuple_lists(fn):
+    """AST pre-pass: a local bound ONCE to a list display of n-tuples and used ONLY as the iterable of loops that unpack
+    n components (`pairs = [(a1, b1), (a2, b2)] … for x, y in pairs:`) is replaced by n parallel lists and a `zip`
+    (`pairs__0 = [a1, a2]; pairs__1 = [b1, b2] … for x, y in zip(pairs__0, pairs__1):`).  Same objects reach the same
+    loop variables in the same order (the displays are evaluated at the same point, component expressions are
+    alias expressions or comprehensions of the translated fragment), but the provenance of the first components is
+    no longer joined with that of the second ones — which is what made "list of (source events, destination containers)
+    pairs" refactorings look like writes to the argument."""
+    stores, loads, parents = {}, {}, {}
+    for n in ast.walk(fn):
+        for c in ast.iter_child_nodes(n):
+            parents[c] = n
+        if isinstance(n, ast.Name):
+            (stores if isinstance(n.ctx, (ast.Store, ast.Del)) else loads).setdefault(n.id, []).append(n)
+        elif isinstance(n, ast.arg):
+            stores.setdefault(n.arg, []).append(n)
+    plan = {}
+    for name, st in stores.items():
+        if len(st) != 1 or not isinstance(st[0], ast.Name):
+            continue
+        a = parents.get(st[0])
+        if not (isinstance(a, ast.Assign) and len(a.targets) == 1 and a.targets[0] is st[0]
+                and isinstance(a.value, (ast.List, ast.Tuple)) and a.value.elts):
+            continue
+        elts = a.value.elts
+        if not all(isinstance(e, ast.Tuple) and not any(isinstance(x, ast.Starred) for x in e.elts) for e in elts):
+            continue
+        n = len(elts[0].elts)
+        if n < 2 or any(len(e.elts) != n for e in elts):
+            continue
+        ok = bool(loads.get(name))
+        for ld in loads.get(name, []):
+            par = parents.get(ld)
+            tgt = None
+            if isinstance(par, ast.For) and par.iter is ld:
+                tgt = par.target
+            elif isinstance(par, ast.comprehension) and par.iter is ld:
+                tgt = par.target
+            if not (isinstance(tgt, (ast.Tuple, ast.List)) and len(tgt.elts) == n
+                    and not any(isinstance(x, ast.Starred) for x in tgt.elts)):
+                ok = False
+        if ok and 'zip' not in stores:
+            plan[name] = (a, n)
+    if not plan:
+        return fn
+
+    class T(ast.NodeTransformer):
+        def visit_Assign(self, node):
+            self.generic_visit(node)
+            for name, (a, n) in plan.items():
+                if node is a:
+                    out = []
+                    for k in range(n):
+                        new = ast.Assign(targets=[ast.Name(id='%s__%d' % (name, k), ctx=ast.Store())],
+                                         value=ast.List(elts=[e.elts[k] for e in node.value.elts], ctx=ast.Load()))
+                        out.append(ast.copy_location(new, node))
+                    return out
+            return node
+
+        def visit_Name(self, node):
+            if isinstance(node.ctx, ast.Load) and node.id in plan:
+                n = plan[node.id][1]
+                call = ast.Call(func=ast.Name(id='zip', ctx=ast.Load()),
+                                args=[ast.Name(id='%s__%d' % (node.id, k), ctx=ast.Load()) for k in range(n)], keywords=[])
+                return ast.copy_location(call, node)
+            return node
+    fn = T().visit(fn)
+    ast.fix_missing_locations(fn)
+    return fn
+
+
 class World:
     """all operations translated from one module."""
 
@@ -1353,7 +1460,7 @@ class World:
         src = inspect.getsource(module)
         self.tree = ast.parse(src)
         self.line0 = 1
-        self.functions = {n.name: n for n in self.tree.body if isinstance(n, ast.FunctionDef)}
+        self.functions = {n.name: split_tuple_lists(n) for n in self.tree.body if isinstance(n, ast.FunctionDef)}
         self.scalar_attrs, self.pb_attrs = schema_attrs()
         self.ops = {}
         self.in_progress = set()
@@ -1366,7 +1473,12 @@ class World:
 
     @staticmethod
     def irname(name, spec):
-        return name + ''.join('__%s' % k for k, v in sorted(spec.items()) if v) if spec else name
+        if not spec:
+            return name
+        r = name + ''.join('__%s' % k for k, v in sorted(spec.items()) if v and not k.startswith('%'))
+        if spec.get('%kinds'):
+            r += '__K' + '_'.join(spec['%kinds'])
+        return r
 
     def ensure_op(self, name, spec):
         irname = self.irname(name, spec)
@@ -1509,8 +1621,8 @@ class Analysis:
 
 
 def infer_contract(op, contracts):
-    """weakest precondition among: anything; anything but one wholly fresh argument; all fresh.
-    -> (pre, ret, hints, failing lines under that contract)"""
+    """(monovariant proposal, kept for reference / fallback) weakest precondition among: anything; anything
+    but one wholly fresh argument; all fresh.  -> (pre, ret, hints, failing lines under that contract)"""
     n = len(op.params)
     cands = [[V_BOTH] * n] + [[V_FR if j == i else V_BOTH for j in range(n)] for i in range(n)] + [[V_FR] * n]
     first = None
@@ -1534,6 +1646,118 @@ def infer_contract(op, contracts):
         if not bad and vle(r, ret):
             return res + (first[3],)
     return ([V_BOTH] * n, V_BOTH, first[2], first[3], first[3])
+
+
+# ----------------------------------------------------------------------------- polyvariant contracts
+# One contract per (operation, abstract argument vector) actually arising at a call site: a private helper such
+# as `_copy_note_sequence(x)` or `_timed_event_lists(x)` is checked once for "x is an argument of the caller" and
+# once for "x was allocated by the caller", instead of once for the join of all its callers (which made every
+# extract-a-helper refactoring look like a mutation of the argument).  Each clone is an ordinary `OpDef` +
+# `Contract` of the generated program, so the Lean checker and `pure_sound` are unchanged: the clones are
+# PROPOSALS, verified by `checkList`.
+class PolyAnalysis(Analysis):
+    def __init__(self, poly, aargs, hints=None):
+        Analysis.__init__(self, None, aargs)
+        self.poly = poly
+        if hints:
+            self.hints = dict(hints)
+
+    def stmt(self, s, env):
+        if s[0] == 'callOp':
+            actual = tuple(abs_expr(self.aargs, env, a) for a in s[4])
+            clone, ret, ok = self.poly.contract_for(s[3], actual)
+            return eset(env, s[2], ret if clone is not None else V_BOTH), V_BOT, ([] if ok else [s[1]])
+        return Analysis.stmt(self, s, env)
+
+
+def clone_name(name, pre):
+    return name if all(a == V_BOTH for a in pre) else '%s@%s' % (name, ''.join(lean_val(a) for a in pre))
+
+
+class Poly:
+    def __init__(self, ops):
+        self.ops = ops                       # IR name -> OpIR
+        self.memo = {}                       # (name, pre) -> clone record
+        self.order = []                      # clone names, callee first
+        self.assumed = {}                    # (name, pre) in progress -> currently assumed result provenance
+        self.by_clone = {}
+
+    def contract_for(self, name, pre):
+        """-> (clone name or None, result provenance, clone honours its contract)"""
+        op = self.ops.get(name)
+        if op is None:
+            return None, V_BOTH, False
+        n = len(op.params)
+        pre = tuple(list(pre)[:n]) + (V_BOT,) * (n - len(pre))
+        key = (name, pre)
+        if key in self.memo:
+            m = self.memo[key]
+            return m['clone'], m['ret'], not m['bad']
+        if key in self.assumed:
+            return clone_name(name, pre), self.assumed[key], True
+        self.assumed[key] = V_BOT
+        hints = {}
+        for _ in range(8):
+            mark = len(self.order)
+            a = PolyAnalysis(self, list(pre))
+            _, r, bad = a.stmt(op.body, [])
+            hints = a.hints
+            if vle(r, self.assumed[key]):
+                break
+            self.assumed[key] = vjoin(self.assumed[key], r)
+            for c in self.order[mark:]:      # computed under a stale assumption
+                k = self.by_clone.pop(c)
+                del self.memo[k]
+            del self.order[mark:]
+        ret = self.assumed[key]
+        rec = {'clone': clone_name(name, pre), 'name': name, 'pre': list(pre), 'ret': ret, 'bad': [], 'hints': hints}
+        self.memo[key] = rec                 # provisional, so that a self-call in the final pass resolves
+        self.by_clone[rec['clone']] = key
+        del self.assumed[key]
+        callees = []
+        env, r, bad, body = self.final(op.body, list(pre), [], hints, callees)
+        if not vle(r, ret):
+            bad = bad + [0]
+        rec.update(bad=bad, body=body, callees=callees)
+        self.order.append(rec['clone'])
+        return rec['clone'], ret, not bad
+
+    def final(self, s, aargs, env, hints, callees):
+        """one pass in the order of the Lean checker `absStmt` (every statement evaluated once, a loop body at
+        entry ⊔ proposed invariant): -> (env or None, returned provenance, failing lines, body with call targets
+        replaced by the clones chosen for the provenance the checker will see)"""
+        t = s[0]
+        if t == 'callOp':
+            actual = tuple(abs_expr(aargs, env, a) for a in s[4])
+            clone, ret, ok = self.contract_for(s[3], actual)
+            if clone is None:
+                return eset(env, s[2], V_BOTH), V_BOT, [s[1]], s
+            if clone not in callees:
+                callees.append(clone)
+            return eset(env, s[2], ret), V_BOT, ([] if ok else [s[1]]), ('callOp', s[1], s[2], clone, s[4])
+        if t == 'seq':
+            ret, bad, out = V_BOT, [], []
+            for i, x in enumerate(s[1]):
+                if env is None:
+                    out.extend(s[1][i:])     # unreachable for the checker too (it stops at `none`)
+                    break
+                env, r, b, y = self.final(x, aargs, env, hints, callees)
+                ret, bad = vjoin(ret, r), bad + b
+                out.append(y)
+            return env, ret, bad, ('seq', out)
+        if t == 'ite':
+            e1, r1, b1, y1 = self.final(s[1], aargs, env, hints, callees)
+            e2, r2, b2, y2 = self.final(s[2], aargs, env, hints, callees)
+            e = e2 if e1 is None else e1 if e2 is None else ejoin(e1, e2)
+            return e, vjoin(r1, r2), b1 + b2, ('ite', y1, y2)
+        if t == 'loop':
+            cur = ejoin(env, hints.get(s[1], []))
+            e, r, b, y = self.final(s[2], aargs, cur, hints, callees)
+            post = e if e is not None else []
+            return cur, r, b + ([] if ele(post, cur) else [0]), ('loop', s[1], y)
+        a = Analysis({}, aargs)
+        e, r, b = a.stmt(s, env)
+        return e, r, b, s
 
 
 def lean_val(a):
@@ -1636,7 +1860,7 @@ def count_nodes(s):
 
 
 def lean_ident(name):
-    return name.replace('.', '_')
+    return name.replace('.', '_').replace('@', '_at_')
 
 
 INVALID = 99999
@@ -1675,59 +1899,105 @@ def translate_module(module=None):
 
 
 def analyse(w):
-    """propose a contract and loop invariants for every translated operation (callee first)."""
-    contracts, results = {}, {}
-    for name in w.order:
-        op = w.ops[name]
-        pre, ret, hints, bad, bad_top = infer_contract(op, contracts)
-        contracts[name] = (pre, ret)
-        results[name] = {'pre': pre, 'ret': ret, 'hints': hints, 'bad': bad, 'bad_for_any_argument': bad_top,
-                         'pure': all(a == V_BOTH for a in pre) and not bad, 'fresh_result': not ret[0]}
-    return contracts, results
+    """propose contracts (polyvariant: one clone per operation and abstract argument vector arising at a call
+    site) and loop invariants.  -> (Poly, {listed IR name: (chosen clone record, record for 'any argument')})"""
+    poly = Poly(w.ops)
+    entries = {}
+    for irname, _, _, _ in LISTED:
+        op = w.ops.get(irname)
+        if op is None:
+            continue
+        n = len(op.params)
+        cands = [(V_BOTH,) * n] + [tuple(V_FR if j == i else V_BOTH for j in range(n)) for i in range(n)] + [(V_FR,) * n]
+        first = chosen = None
+        for pre in cands:
+            poly.contract_for(irname, pre)
+            rec = poly.memo[(irname, tuple(pre))]
+            if first is None:
+                first = rec
+            if not rec['bad']:
+                chosen = rec
+                break
+        entries[irname] = (chosen or first, first)
+    return poly, entries
 
 
 def generate_lean(module=None):
     """-> (text of Generated/C11.lean, info dict for the evidence)"""
-    w, slices, missing = translate_module(module)
-    contracts, results = analyse(w)
-    gids = {name: i for i, name in enumerate(w.order)}
+    w, slices0, missing = translate_module(module)
+    poly, entries = analyse(w)
+    # keep only the clones reachable from a listed entry, callee first
+    needed, order = set(), []
+
+    def visit(c):
+        if c in needed:
+            return
+        needed.add(c)
+        rec = poly.memo[poly.by_clone[c]]
+        for d in rec['callees']:
+            if d != c:
+                visit(d)
+        order.append(c)
+    for irname, _, _, _ in LISTED:
+        if irname in entries:
+            visit(entries[irname][0]['clone'])
+    gids = {c: i for i, c in enumerate(order)}
     L = ['import NoteSeqVerif.Model.C11',
          '/-! GENERATED from %s on every run by gen/refir.py (harness/c11.py) — do not edit.' % w.module.__name__,
          'Reference / mutation IR of the sequence operations.  `ix` maps the global operation number used in the',
          'bodies to the position of that operation in the program slice being checked.  The lists after `.loop`',
-         'and the contracts are PROPOSALS of the translator, verified by `pureProg`. -/',
+         'and the contracts are PROPOSALS of the translator, verified by `pureProg`.  An operation called with',
+         'arguments of different provenance appears once per provenance vector (`name@FB` = first argument freshly',
+         'allocated by the caller, second anything): same body, call targets and invariants chosen for that context. -/',
          'namespace NSV.C11.Gen', 'open NSV.C11', 'set_option linter.unusedVariables false', '',
          'abbrev N := AbsVal.bot', 'abbrev I := AbsVal.input', 'abbrev F := AbsVal.fresh', 'abbrev B := AbsVal.both', '']
     info = {'ops': {}, 'conservative': [], 'missing': missing, 'trusted_external_calls': sorted(w.trusted_calls),
             'callable_parameters_assumed_scalar_to_scalar': sorted(w.callable_params),
             'scalar_attrs': len(w.scalar_attrs), 'pb_attrs': len(w.pb_attrs)}
-    for name in w.order:
+    seen_base = set()
+    for c in order:
+        rec = poly.memo[poly.by_clone[c]]
+        name = rec['name']
         op = w.ops[name]
-        res = results[name]
-        L.append('/-- `%s` (%s:%d)  params: %s' % (name, w.module.__name__.split('.')[-1] + '.py', op.line, ', '.join(op.params)))
+        L.append('/-- `%s` (%s:%d)  params: %s' % (c, w.module.__name__.split('.')[-1] + '.py', op.line, ', '.join(op.params)))
         L.append('variables: ' + ' '.join('%d=%s' % (i, v) for i, v in enumerate(op.varnames)))
         for (ln, why) in op.conservative:
             L.append('CONSERVATIVE at line %d: %s' % (ln, why))
-            info['conservative'].append({'op': name, 'line': ln, 'why': why})
+            if name not in seen_base:
+                info['conservative'].append({'op': name, 'line': ln, 'why': why})
+        seen_base.add(name)
         L.append('-/')
-        L.append('def op_%s (ix : Nat → Nat) : OpDef := ⟨%s, %d,' % (lean_ident(name), '"%s"' % name, len(op.params)))
-        L.append(lean_stmt(op.body, 1, lambda n: gids.get(n, INVALID), res['hints']) + '⟩')
-        L.append('def ct_%s : Contract := ⟨%s, %s⟩' % (lean_ident(name), lean_env(res['pre']), lean_val(res['ret'])))
+        L.append('def op_%s (ix : Nat → Nat) : OpDef := ⟨%s, %d,' % (lean_ident(c), '"%s"' % c, len(op.params)))
+        L.append(lean_stmt(rec['body'], 1, lambda n: gids.get(n, INVALID), rec['hints']) + '⟩')
+        L.append('def ct_%s : Contract := ⟨%s, %s⟩' % (lean_ident(c), lean_env(rec['pre']), lean_val(rec['ret'])))
         L.append('')
-        info['ops'][name] = {'line': op.line, 'params': op.params, 'ir_nodes': count_nodes(op.body),
-                             'writes': sum(1 for _ in _iter_kind(op.body, 'write')),
-                             'calls': sorted(set(op.callees)), 'conservative': len(op.conservative),
-                             'contract': '%s -> %s' % (''.join(lean_val(a) for a in res['pre']), lean_val(res['ret'])),
-                             'pure': res['pure'], 'fresh_result': res['fresh_result'],
-                             'failing_lines_under_contract': res['bad'],
-                             'failing_lines_for_any_argument': res['bad_for_any_argument']}
+        info['ops'][c] = {'line': op.line, 'params': op.params, 'ir_nodes': count_nodes(op.body),
+                          'writes': sum(1 for _ in _iter_kind(op.body, 'write')),
+                          'calls': sorted(set(rec['callees'])), 'conservative': len(op.conservative),
+                          'contract': '%s -> %s' % (''.join(lean_val(a) for a in rec['pre']), lean_val(rec['ret'])),
+                          'pure': all(a == V_BOTH for a in rec['pre']) and not rec['bad'], 'fresh_result': not rec['ret'][0],
+                          'failing_lines_under_contract': rec['bad'],
+                          'failing_lines_for_any_argument': rec['bad'] if all(a == V_BOTH for a in rec['pre']) else None}
+    slices = {}
     for irname, _, _, _ in LISTED:
-        sl = slices[irname]
-        if sl is None:
-            L.append('/-- `%s` could not be translated (%s): an empty program, so that the obligation fails -/' % (irname, missing[irname]))
+        if irname not in entries:
+            slices[irname] = None
+            L.append('/-- `%s` could not be translated (%s): an empty program, so that the obligation fails -/' % (irname, missing.get(irname)))
             L.append('def ir_%s : Prog := ⟨[], [], 0⟩' % lean_ident(irname))
             L.append('')
             continue
+        seen, sl = set(), []
+
+        def visit2(c):
+            if c in seen:
+                return
+            seen.add(c)
+            for d in poly.memo[poly.by_clone[c]]['callees']:
+                if d != c:
+                    visit2(d)
+            sl.append(c)
+        visit2(entries[irname][0]['clone'])
+        slices[irname] = sl
         pos = {gids[n]: i for i, n in enumerate(sl)}
         arms = ' '.join('| %d => %d' % (g, i) for g, i in sorted(pos.items()))
         L.append('/-- program slice of `%s`: %s -/' % (irname, ', '.join(sl)))
@@ -1739,10 +2009,17 @@ def generate_lean(module=None):
     L.append('def allProgs : List (String × Prog) := [%s]' % ', '.join('("%s", ir_%s)' % (n, lean_ident(n)) for n, _, _, _ in LISTED))
     L.append('')
     L.append('end NSV.C11.Gen')
-    info['slices'] = {k: v for k, v in slices.items()}
-    info['listed'] = {n: (results[n] if n in results else None) and
-                      {'pure': results[n]['pure'], 'fresh_result': results[n]['fresh_result'],
-                       'failing_lines_for_any_argument': results[n]['bad_for_any_argument']} for n, _, _, _ in LISTED}
+    info['slices'] = slices
+    info['listed'] = {}
+    for n, _, _, _ in LISTED:
+        if n not in entries:
+            info['listed'][n] = None
+            continue
+        chosen, first = entries[n]
+        info['listed'][n] = {'pure': all(a == V_BOTH for a in chosen['pre']) and not chosen['bad'],
+                             'fresh_result': not chosen['ret'][0],
+                             'contract': '%s -> %s' % (''.join(lean_val(a) for a in chosen['pre']), lean_val(chosen['ret'])),
+                             'failing_lines_for_any_argument': first['bad']}
     return '\n'.join(L) + '\n', info
 
 
